@@ -768,7 +768,7 @@ pub fn run(ctx: &Ctx) -> i32 {
     });
     let ev = Evidence {
         level: "fault_enumeration",
-        rule: "Positions from seeded playouts of the rules model (kept when the unpruned reference fits its node budget), depth 1..3. Crash point = index j of the clock read at which the deadline first reads expired (forced-expiry clock). Quick: j in 1..32, every iteration boundary +-4, 64 seeded j per position; thorough: every j in 1..R for positions with R<=6000 reads (exhaustive in the crash-point dimension for that position) else 400 seeded j; plus sequences of 2-3 interruptions, other key sets, and really fresh engines. After each interrupted search: history length unchanged and every cached claim about a position of the tree (interior nodes; horizon positions too, should the engine cache them) audited against the reference; then a completed search must report M and a move attaining it. Besides, per position a few World-U sessions: `position <start> moves <history with planted repetitions>` followed by 1-3 `go movetime` cut at seeded clock reads; after each, the engine's game record must have the same length and give the same repetition verdict for every legal successor as before the search, and a final `go depth 1` must report the value the history implies (third occurrences worth 0) with a move attaining it, unless it was answered from a deeper result cached by a completed iteration of an interrupted go (instrumented, counted). A case = (position, depth, expiry sequence) or (position command, expiry sequence); all are non-trivial.".into(),
+        rule: "Positions from seeded playouts of the rules model (kept when the unpruned reference fits its node budget), depth 1..3. Crash point = index j of the clock read at which the deadline first reads expired (forced-expiry clock). Quick: j in 1..32, every iteration boundary +-4, 64 seeded j per position; thorough: every j in 1..R for positions with R<=6000 reads (exhaustive in the crash-point dimension for that position) else 400 seeded j; plus sequences of 2-3 interruptions, other key sets, and really fresh engines. After each interrupted search: history length unchanged and every cached claim about a position of the tree (interior nodes; horizon positions too, should the engine cache them) audited against the reference; then a completed search must report M and a move attaining it. Besides, per position a few World-U sessions: `position <start> moves <history with planted repetitions>` followed by 1-3 `go movetime` cut at seeded clock reads; after each, the engine's game record must have the same length and give the same repetition verdict for every legal successor as before the search, and a final `go depth 1` must report the value the history implies (third occurrences worth 0) with a move attaining it, unless it was answered from a deeper result cached by a completed iteration of an interrupted go (instrumented, counted). A case = (position, depth, expiry sequence) or (position command, expiry sequence); all are non-trivial. A third of the single interruption points and a quarter of the sequences also run on an evenly running clock (1 ms per clock read, budget j ms); the interrupted go lines of a third of the history sessions carry searchmoves / nodes / mate.".into(),
         extra: serde_json::Map::new(),
         assumptions: vec![
             "reference M takes the engine's move generator, make_move, static evaluation and full-window quiescence as given".into(),
